@@ -109,6 +109,14 @@ impl KBucket {
     }
 }
 
+/// Verification hooks: read accessor.
+#[cfg(feature = "verif")]
+impl KBucket {
+    pub fn verif_nodes(&self) -> &[KademliaPeer] {
+        &self.nodes
+    }
+}
+
 #[cfg(test)]
 mod tests {
     use super::*;
